@@ -875,6 +875,18 @@ fn navigate(bytes: Vec<u8>, opts: ParseOptions, numbers: &[u32]) -> &'static str
     "ok"
 }
 
+/// The images of the file through the bounded in-memory extractor, with limits a cautious caller would set
+/// (16 M pixels and 64 MB per image, 64 images, 256 MB in all): the limits are the caller's protection, they must hold.
+fn navigate_images(bytes: Vec<u8>, opts: ParseOptions) {
+    use oxidize_pdf::operations::extract_images::{ExtractImagesOptions, ImageExtractionLimits, ImageExtractor};
+    if let Ok(reader) = PdfReader::new_with_options(Cursor::new(bytes), opts) {
+        let doc: PdfDocument<Cursor<Vec<u8>>> = reader.into_document();
+        let mut ex = ImageExtractor::new(doc, ExtractImagesOptions { min_size: None, ..ExtractImagesOptions::default() });
+        let _ = ex.extract_all_in_memory(ImageExtractionLimits { max_images: 64, max_encoded_bytes_per_image: 64 << 20, max_total_encoded_bytes: 256 << 20,
+                                                                 max_decoded_pixels_per_image: 16_000_000 });
+    }
+}
+
 fn run(a: &Args) {
     static LAST_PANIC: std::sync::Mutex<String> = std::sync::Mutex::new(String::new());
     std::panic::set_hook(Box::new(|info| {
@@ -923,7 +935,7 @@ fn run(a: &Args) {
                 crate::alloc_reset_peak();
                 let base_kb = crate::alloc_current() / 1024;
                 let t0 = thread_cpu_ms();
-                let r = std::panic::catch_unwind(move || navigate(b2, opts, &nums));
+                let r = std::panic::catch_unwind(move || { let o = navigate(b2.clone(), opts.clone(), &nums); navigate_images(b2, opts); o });
                 let ms = thread_cpu_ms() - t0;
                 let kb = (crate::alloc_peak() / 1024).saturating_sub(base_kb);
                 (r.unwrap_or("panic"), ms, kb)
@@ -954,7 +966,7 @@ fn probe(a: &Args) {
         let h = std::thread::Builder::new().stack_size(8 << 20).spawn(move || {
             crate::alloc_reset_peak();
             let t0 = thread_cpu_ms();
-            let r = std::panic::catch_unwind(move || navigate(b2, opts, &nums));
+            let r = std::panic::catch_unwind(move || { let o = navigate(b2.clone(), opts.clone(), &nums); navigate_images(b2, opts); o });
             (r.unwrap_or("panic"), thread_cpu_ms() - t0, crate::alloc_peak() / 1024)
         });
         let (o, ms, kb) = h.ok().and_then(|h| h.join().ok()).unwrap_or(("panic", 0, 0));
